@@ -111,7 +111,10 @@ SPEC = {
     "C03": dict(level="other", pyvc=True, extra=[],
                 text="Proved: rename_duplicate_nodes (the `ext + edge.nodes` overlap in the Jacobian is renamed apart correctly). Everything "
                      "about derivatives is a bounded stand-in: gradients against exact dual-number derivatives / central differences."),
-    "C04": dict(level="exploration", pyvc=True, extra=[], text="Bounded stand-in: viterbi derivations checked for well-formedness and optimality against brute force."),
+    "C04": dict(level="other", pyvc=True, extra=[lambda ctx: _semvc_laws(ctx, only="ViterbiSemiring.star")],
+                text="Proved: ViterbiSemiring.star is the least solution of y = 1 + x*y (the Viterbi sum_product the derivation weight must equal "
+                     "is built on it). Bounded stand-in: viterbi derivations checked for well-formedness and optimality against brute force, and "
+                     "against the Viterbi-semiring sum_product under every method."),
     "C05": dict(level="other", pyvc=True, extra=[],
                 text="Proved: the method argument reaches tree_decomposition through factorize_fgg / factorize_hrg and selects the algorithm; "
                      "unique_label_name returns a name not in the given label set. Bounded: inlining isomorphism, widths, sum-product equality."),
@@ -122,7 +125,7 @@ SPEC = {
     "C07": dict(level="other", pyvc=False, extra=[_semvc("vf.semvc.homs.run_c07")],
                 text="Proved: the multiply/add callbacks of each semiring's einsum are the semiring's mul (0 x inf = 0). Bounded: denotation of "
                      "patterned einsum against explicit nested loops."),
-    "C08": dict(level="other", pyvc=False, extra=[lambda ctx: _semvc_laws(ctx)],
+    "C08": dict(level="other", pyvc=False, extra=[lambda ctx: _semvc_laws(ctx), _semvc("vf.semvc.pt_ops.run"), _semvc("vf.semvc.floatgrid.run")],
                 text="Law clauses: proof obligations (semvc) on the scalar meaning of the real method bodies of fggs/semirings.py, over the "
                      "reals extended with +-inf/NaN, discharged by z3 nonlinear arithmetic. Representation clause (Tensor vs PatternedTensor) "
                      "and exact-IEEE laws: bounded stand-in, never counted as proved."),
